@@ -2,7 +2,9 @@ package main
 
 import (
 	"fmt"
+	"go/types"
 	"os"
+	"os/exec"
 	"runtime/debug"
 	"sort"
 	"strings"
@@ -54,6 +56,8 @@ func newWorker(ld *Loaded, spec HarnessSpec, cfg *RunCfg) *worker {
 	w := &worker{ld: ld, spec: spec, cfg: cfg}
 	w.ctx = &Ctx{st: st, sol: NewSolver(solverKind()), cfg: cfg, stats: &Stats{Funcs: map[string]int64{}, AssertsByMsg: map[string]int{}}, harness: spec.Name()}
 	w.fn = ld.fn(repoMod+"/"+spec.Pkg, spec.Func)
+	w.ctx.strCache = map[string]Str{}
+	w.ctx.zeroCache = map[types.Type]Value{}
 	for _, cs := range cfg.Cross {
 		every := 1
 		name := cs
@@ -74,12 +78,14 @@ func (w *worker) runPath(maxDepth int) (outcome string) {
 	c.hchoices = nil
 	x := &Exec{c: c, prog: w.ld.prog, ld: w.ld, globals: map[*ssa.Global]*Value{}, fcount: map[*ssa.Function]int64{},
 		flagsOf: map[*Value]*FlagSetObj{}, params: w.spec.Params, extUsed: map[string]bool{}, stdInit: map[*ssa.Package]bool{}}
-	x.fs = x.newFS()
 	if c.st.nextID > 1_500_000 {
 		// keep memory bounded: fresh term store and solver (definitions are re-sent lazily)
 		c.st = NewStore()
 		c.sol.Restart()
+		c.strCache = map[string]Str{}
+		c.zeroCache = map[types.Type]Value{}
 	}
+	x.fs = x.newFS()
 	defer func() {
 		c.stats.Steps += x.steps
 		for f, n := range x.fcount {
@@ -127,6 +133,11 @@ func (w *worker) runPath(maxDepth int) (outcome string) {
 func solverKind() string {
 	if k := os.Getenv("GOITSYM_SOLVER"); k != "" {
 		return k
+	}
+	// z3 5.1.0 (z3-new) answers these incremental QF_BV queries about five times faster than 4.8.12; use it when it is
+	// installed, otherwise the system z3. The thorough tier cross-checks with cvc5 and with the other z3.
+	if _, err := exec.LookPath("z3-new"); err == nil {
+		return "z3-new"
 	}
 	return "z3"
 }
